@@ -142,6 +142,9 @@ func (env *specEnv) eval(e Expr) SVal {
 		if sf := c.eng.specFuncs[x.Name]; sf != nil && len(sf.Params) == 0 {
 			return env.applySpecFunc(sf, nil)
 		}
+		if v, ok := env.uncapturedOuter(x.Name); ok {
+			return v
+		}
 		specFail("unknown identifier %q in specification", x.Name)
 	case *EUnary:
 		v := env.eval(x.X)
